@@ -265,7 +265,9 @@ def run(ctx):
                 rep = {"program": pid, "variant": kind, "what": bad, "source": r["src"], "transcript": text[-3000:]}
                 ctx.save_replay("%s_%s.nano" % (pid, kind), r["src"])
                 ctx.violation("shadow evaluation of %s (%s): %s" % (pid, kind, bad), ctx.save_replay("%s_%s.json" % (pid, kind), json.dumps(rep, indent=1)))
-    cov = dict(programs=stats["programs"], disagreements_checked=len(failing), samples=samples or [{"note": "none"}],
+    from props import gx_part
+    gx_cov = gx_part.run_part(ctx, "C03")       # widened program universe: the evaluator against the shadow-mode prescription
+    cov = dict(generator_exploration=gx_cov, programs=stats["programs"], disagreements_checked=len(failing), samples=samples or [{"note": "none"}],
                evaluations=len(obs) + len(twins), distinct_nontrivial=len(seen), classes=dict(stats),
                rule="every generated/family program gets shadow blocks calling each function; constants prescribed by NanoSem; P_true (all assertions hold) and P_mixed (a TLC-chosen subset falsified); distinct by source hash",
                states=tlc_a.distinct + tlc_b.distinct, transitions=tlc_a.generated + tlc_b.generated)
